@@ -92,6 +92,9 @@ struct Node<P: PoolAdapter + 'static = PAdapter> {
 	max_stem: usize,
 	verdict_key: String,
 	verdict: bool,
+	/// run `miner`: the recorded finding C14-reorg-lower-height-keeps-locked-tx is being reproduced on
+	/// purpose: a mineable set refused for its lock height is that finding, not a new failure
+	known_lower: bool,
 }
 
 impl Node<PAdapter> {
@@ -168,6 +171,7 @@ impl<P: PoolAdapter + 'static> Node<P> {
 			max_stem,
 			verdict_key: String::new(),
 			verdict: false,
+			known_lower: false,
 		}
 	}
 
@@ -437,6 +441,12 @@ impl<P: PoolAdapter + 'static> Node<P> {
 					self.stat("mine-oracle:blocks-built");
 					match verdict {
 						Ok(()) => self.last_probe = key,
+						Err(e) if self.known_lower && e.contains("LockHeight") => self.raw(&format!(
+							"#KNOWN-PROBE C14 reorg-to-lower-height-keeps-immature-tx: {}: the block built on the head from the mineable set {:?} is rejected: {}",
+							here,
+							set.iter().map(|t| self.sig(t)).collect::<Vec<_>>(),
+							e
+						)),
 						Err(e) => self.raw(&format!(
 							"#ORACLE-FAIL C14 node-mineable-set-rejected {}: the block built on the head from the mineable set {:?} is rejected: {}",
 							here,
@@ -1729,13 +1739,18 @@ impl Mon {
 	/// a block through the real `block_accepted` while the reorg cache holds entries of the given
 	/// ages (ms before the reading; entry i of the cache gets `now - ages[i]`)
 	fn t_block(&mut self, period_min: u32, ages: &[i64], rng: &mut Rng, label: &str) -> bool {
-		self.n.pool.write().config.reorg_cache_period = period_min;
 		let parent = self.n.head;
 		let (txs, what) = block_content(&mut self.n, rng, parent);
 		let id = match build_with_fallback(&mut self.n, parent, 1, txs) {
 			Some(id) => id,
 			None => return true,
 		};
+		self.t_deliver(id, period_min, ages, what, label)
+	}
+
+	/// deliver block `id` through the real `block_accepted`; cache entry i gets `now - ages[i]` first
+	fn t_deliver(&mut self, id: usize, period_min: u32, ages: &[i64], what: &str, label: &str) -> bool {
+		self.n.pool.write().config.reorg_cache_period = period_min;
 		let before = chrono::Utc::now().timestamp_millis();
 		{
 			let p = self.n.pool.write();
@@ -1978,6 +1993,62 @@ fn run_clock_history(work: &str, hist: usize, seed: u64) -> (String, BTreeMap<St
 			return finish(m);
 		}
 	}
+	// --- a reorganisation deeper than the reorg-cache period: T1 (admitted before the cutoff) and T2
+	// (after it) are confirmed on branch A; the heavier branch B confirms neither: the replay brings T2
+	// back, T1 is lost (theorem deep_reorg_replays_only_recent); T3 never left the txpool ---
+	{
+		let mut made: Vec<Transaction> = vec![];
+		for _ in 0..3 {
+			let free = m.n.free_utxo();
+			if free.is_empty() {
+				break;
+			}
+			let o = *rng.pick(&free);
+			let fee = fee_for(&mut rng, 1, 1);
+			if let Some(tx) = m.n.spend(&[o], 1, fee) {
+				if m.push(tx.clone(), TxSource::Broadcast, false, "deep-reorg") {
+					made.push(tx);
+				}
+			}
+		}
+		if made.len() == 3 {
+			let parent = m.n.head;
+			let a = m.n.build_block(parent, 1, &made[0..2].to_vec());
+			let b1 = m.n.build_block(parent, 1, &[]);
+			let b2 = b1.and_then(|b1| m.n.build_block(b1, 4, &[]));
+			if let (Some(a), Some(b1), Some(b2)) = (a, b1, b2) {
+				// every cache entry up to and including T1 is older than the period, T2 and T3 are not
+				let n = m.n.pool.read().reorg_cache.read().len();
+				let p = 30i64 * 60_000;
+				let ages: Vec<i64> = (0..n).map(|i| if i + 3 <= n { p + 20_000 + (n - i) as i64 * 1000 } else { p - 20_000 - i as i64 * 1000 }).collect();
+				if !m.t_deliver(a, 30, &ages, "confirms-T1-T2", "deep-reorg:branch-A") {
+					return finish(m);
+				}
+				let in_pool = |m: &Mon, t: &Transaction| m.n.pool.read().txpool.entries.iter().any(|e| e.tx.kernels() == t.kernels());
+				let in_cache = |m: &Mon, t: &Transaction| m.n.pool.read().reorg_cache.read().iter().any(|e| e.tx.kernels() == t.kernels());
+				m.n.stat(&format!(
+					"clock:deep-reorg:after-branch-A:T1-old-in-cache={}:T2-young-in-cache={}:T3-in-txpool={}",
+					in_cache(&m, &made[0]),
+					in_cache(&m, &made[1]),
+					in_pool(&m, &made[2])
+				));
+				m.n.p_deliver(b1, Options::NONE, "deep-reorg:B1-stays-behind");
+				let n2 = m.n.pool.read().reorg_cache.read().len();
+				let ages2: Vec<i64> = (0..n2).map(|i| p - 40_000 - i as i64 * 1000).collect();
+				if !m.t_deliver(b2, 30, &ages2, "heavier-empty-branch", "deep-reorg:branch-B") {
+					return finish(m);
+				}
+				let (t1, t2, t3) = (in_pool(&m, &made[0]), in_pool(&m, &made[1]), in_pool(&m, &made[2]));
+				m.n.stat(&format!("clock:deep-reorg:after-the-reorg:T1-older-than-the-period-replayed={}:T2-replayed={}:T3-kept={}", t1, t2, t3));
+				if t1 {
+					m.n.raw(&format!("#ORACLE-FAIL C14 node-reorg-replayed-an-entry-older-than-the-cache-period hist={}", m.n.name));
+				}
+				if !t2 || !t3 {
+					m.n.raw(&format!("#ORACLE-FAIL C14 node-reorg-lost-a-recent-transaction hist={}: T2 replayed={} T3 kept={}", m.n.name, t2, t3));
+				}
+			}
+		}
+	}
 	finish(m)
 }
 
@@ -1994,6 +2065,8 @@ struct FakePeer {
 	outbound: bool,
 	banned: bool,
 	alive: bool,
+	/// the last stem transaction that was relayed arrived here
+	last_frame: bool,
 }
 
 fn wire_msg(msg: &grin_p2p::msg::Msg) -> Vec<u8> {
@@ -2059,7 +2132,7 @@ fn make_fake_peer(id: usize, genesis: grin_core::core::hash::Hash, outbound: boo
 		};
 		let _ = remote.write_all(&wire_msg(&Msg::new(Type::Shake, shake, ProtocolVersion(1)).ok()?));
 		let peer = t.join().ok()??;
-		Some(FakePeer { id, peer: Arc::new(peer), remote: Some(remote), outbound: true, banned: false, alive: true })
+		Some(FakePeer { id, peer: Arc::new(peer), remote: Some(remote), outbound: true, banned: false, alive: true, last_frame: false })
 	} else {
 		let mut client = std::net::TcpStream::connect(laddr).ok()?;
 		let _ = client.set_nodelay(true);
@@ -2082,7 +2155,7 @@ fn make_fake_peer(id: usize, genesis: grin_core::core::hash::Hash, outbound: boo
 		let _ = client.write_all(&wire_msg(&Msg::new(Type::Hand, hand, ProtocolVersion(1)).ok()?));
 		read_frame_type(&mut client, 10_000)?;
 		let peer = t.join().ok()??;
-		Some(FakePeer { id, peer: Arc::new(peer), remote: Some(client), outbound: false, banned: false, alive: true })
+		Some(FakePeer { id, peer: Arc::new(peer), remote: Some(client), outbound: false, banned: false, alive: true, last_frame: false })
 	}
 }
 
@@ -2232,6 +2305,11 @@ impl RelayRun {
 		}
 		if let Some(id) = got.first() {
 			self.m.n.raw(&format!("pool rcur => p{}", id));
+			let cands = self.fakes.iter().filter(|f| f.outbound && !f.banned).count();
+			self.m.n.stat(&format!("relay:frame-at-p{}:outbound-unbanned-peers={}", id, cands));
+			for f in self.fakes.iter_mut() {
+				f.last_frame = f.id == *id;
+			}
 		}
 		self.m.n.p_obs(&lhs);
 	}
@@ -2296,6 +2374,26 @@ fn run_relay_history(work: &str, hist: usize, seed: u64) -> (String, BTreeMap<St
 	if r.m.t_epoch_next().is_some() {
 		r.push(&mut rng, TxSource::PushApi, "after-next-epoch");
 	}
+	// several candidates: `choose_random` may take ANY outbound, unbanned member - the socket that
+	// receives the frame tells which one it was (specification: membership)
+	for _ in 0..3 {
+		r.add_peer(true);
+	}
+	for round in 0..4 {
+		if r.m.t_epoch_next().is_none() {
+			break;
+		}
+		r.push(&mut rng, TxSource::PushApi, "several-candidates:after-next-epoch");
+		r.push(&mut rng, TxSource::PushApi, "several-candidates:same-epoch-again");
+		if round == 1 {
+			// the relay in use is banned in the middle of the epoch: a new random choice among the rest
+			let cur: Option<usize> = r.fakes.iter().position(|f| f.outbound && !f.banned && f.alive && f.remote.is_some() && f.last_frame);
+			if let Some(idx) = cur {
+				r.ban(idx);
+				r.push(&mut rng, TxSource::PushApi, "several-candidates:relay-banned-mid-epoch");
+			}
+		}
+	}
 	// a block from the mineable set
 	let set = r.m.n.pool.read().prepare_mineable_transactions().unwrap_or_default();
 	let parent = r.m.n.head;
@@ -2309,6 +2407,140 @@ fn run_relay_history(work: &str, hist: usize, seed: u64) -> (String, BTreeMap<St
 	let Mon { n, .. } = m;
 	let Node { out, stats, .. } = n;
 	(out, stats)
+}
+
+// ---------------------------------------------------------------------------------------------
+// run `miner`: what `mine_block::get_block` does when the pool offers a set the chain refuses.
+// The only way known to get there is the recorded finding C14-reorg-lower-height-keeps-locked-tx: a
+// height-locked transaction admitted at height h+2 stays pooled after a reorganisation onto a heavier
+// branch of height h+1.  `build_block` then fails (`Block::validate`: KernelLockHeight), `get_block`
+// retries - with no key id (no wallet: the reward is burnt) without any pause - and returns only once
+// the chain has grown (by somebody else's block) to the lock height.
+
+fn run_miner_history(work: &str, hist: usize, seed: u64) -> (String, BTreeMap<String, u64>) {
+	let mut rng = Rng::new(seed.wrapping_mul(13_000_003).wrapping_add(10_007 * (hist as u64 + 1)));
+	let mut m = Mon::new(work, &format!("g{}", hist), 0, true, 50, 50);
+	m.n.p_cfg();
+	for k in 0..10 {
+		let parent = m.n.head;
+		let mut txs = vec![];
+		if k >= 4 {
+			let free = m.n.free_utxo();
+			if let Some(o) = free.first().cloned() {
+				if let Some(t) = m.n.spend(&[o], 3, 5) {
+					txs.push(t);
+				}
+			}
+		}
+		if let Some(id) = build_with_fallback(&mut m.n, parent, 1, txs) {
+			m.n.p_deliver(id, Options::NONE, "warm-up");
+		}
+	}
+	let finish = |m: Mon| {
+		let Mon { n, .. } = m;
+		let Node { out, stats, .. } = n;
+		(out, stats)
+	};
+	// a healthy pool first: get_block returns at once
+	m.mine_block(Options::MINE, false);
+	let p = m.n.head;
+	let hp = m.n.kit.blks[p].height;
+	// branch A: two blocks; branch B: ONE heavier block, and its successor (somebody else's)
+	let a1 = m.n.build_block(p, 1, &[]);
+	let a2 = a1.and_then(|a| m.n.build_block(a, 1, &[]));
+	let b1 = m.n.build_block(p, 7, &[]);
+	let b2 = b1.and_then(|b| m.n.build_block(b, 1, &[]));
+	let (a1, a2, b1, b2) = match (a1, a2, b1, b2) {
+		(Some(a), Some(b), Some(c), Some(d)) => (a, b, c, d),
+		_ => return finish(m),
+	};
+	m.n.p_deliver(a1, Options::NONE, "branch-A");
+	m.n.p_deliver(a2, Options::NONE, "branch-A");
+	// L: locked at the next height on branch A (p+3): admitted
+	let free: Vec<usize> = m.n.free_utxo().into_iter().filter(|o| !m.n.kit.outs[*o].coinbase).collect();
+	let (o1, o2) = match (free.get(0), free.get(1)) {
+		(Some(a), Some(b)) => (*a, *b),
+		_ => return finish(m),
+	};
+	let fee = fee_for(&mut rng, 1, 1);
+	let f = KernelFeatures::HeightLocked { fee: FeeFields::new(0, fee).unwrap(), lock_height: hp + 3 };
+	let l = match m.n.spend_f(&[o1], 1, fee, Some(f)) {
+		Some(t) => t,
+		None => return finish(m),
+	};
+	let fee2 = fee_for(&mut rng, 1, 1);
+	let plain = m.n.spend(&[o2], 1, fee2);
+	m.push(l.clone(), TxSource::Broadcast, false, "locked-at-the-next-height-of-branch-A");
+	if let Some(t) = plain {
+		m.push(t, TxSource::Broadcast, false, "plain-bystander");
+	}
+	// the heavier, SHORTER branch: head p+1, next p+2 < lock
+	m.n.known_lower = true;
+	let r = m.n.p_deliver(b1, Options::NONE, "heavier-shorter-branch-B");
+	let still = m.n.pool.read().txpool.entries.iter().any(|e| e.tx.kernels() == l.kernels());
+	m.n.stat(&format!("miner:reorg-to-lower-height:{}:locked-transaction-still-pooled={}", r, still));
+	// the miner
+	let set = m.n.pool.read().prepare_mineable_transactions().unwrap_or_default();
+	let sigs: Vec<String> = set.iter().map(|t| m.n.psig(t)).collect();
+	let (txc, rxc) = std::sync::mpsc::channel();
+	let calls = Arc::new(std::sync::atomic::AtomicUsize::new(0));
+	let chain = m.n.node.clone();
+	let pool = m.n.pool.clone();
+	let t0 = std::time::Instant::now();
+	std::thread::spawn(move || {
+		setup_globals();
+		global::set_local_accept_fee_base(FEE_BASE);
+		let r = catch(std::panic::AssertUnwindSafe(|| get_block(&chain, &pool, None, None)));
+		let _ = txc.send((r, t0.elapsed()));
+	});
+	let _ = calls;
+	let first = rxc.recv_timeout(std::time::Duration::from_secs(3));
+	let stuck = first.is_err();
+	m.n.stat(&format!("miner:get_block-on-a-refused-mineable-set:{}", if stuck { "does-not-return-within-3s(retry-loop)" } else { "returned" }));
+	if stuck {
+		m.n.raw(&format!(
+			"#KNOWN-PROBE C14 reorg-to-lower-height-keeps-immature-tx: hist={} head height {} mineable set [{}]: mine_block::get_block does not return (build_block fails on the kernel lock height {} and is retried without pause: no key id); nothing is mined, not even an empty block",
+			m.n.name,
+			hp + 1,
+			sigs.join(","),
+			hp + 3
+		));
+		m.n.raw(&format!("pool build_block => [{}]:rejected", sigs.join(",")));
+	} else if still {
+		m.n.raw(&format!("#ORACLE-FAIL C14 node-miner-returned-a-block-with-a-locked-kernel hist={} mineable set [{}]", m.n.name, sigs.join(",")));
+	}
+	// somebody else's block arrives: height p+2, next p+3 = lock: the waiting get_block returns by itself
+	m.n.known_lower = false;
+	m.n.p_deliver(b2, Options::NONE, "next-block-by-somebody-else");
+	if stuck {
+		match rxc.recv_timeout(std::time::Duration::from_secs(20)) {
+			Ok((Ok((b, _fees)), dt)) => {
+				let has_l = b.kernels().iter().any(|k| l.kernels().contains(k));
+				m.n.stat(&format!("miner:get_block-returned-after-the-next-block:block-height={}:contains-the-locked-transaction={}", b.header.height - hp, has_l));
+				let _ = dt;
+				let mut b = b;
+				b.header.pow.proof = pow::Proof::random(global::proofsize());
+				let set2 = m.n.pool.read().prepare_mineable_transactions().unwrap_or_default();
+				let sigs2: Vec<String> = set2.iter().map(|t| m.n.psig(t)).collect();
+				let ok = m.n.kit.builder().process_block(b.clone(), Options::SKIP_POW).is_ok();
+				m.n.raw(&format!("pool build_block => [{}]:{}", sigs2.join(","), if ok { "ok" } else { "rejected" }));
+				if !ok || !has_l {
+					m.n.raw(&format!("#ORACLE-FAIL C14 node-miner-did-not-recover hist={}: block accepted by a chain={} contains the locked transaction={}", m.n.name, ok, has_l));
+				}
+				if ok {
+					let parent = m.n.head;
+					let st = m.n.state_after(parent, &b);
+					let id = m.n.kit.record(b, parent, vec!["mined".into()], true);
+					m.n.states.insert(id, st);
+					m.n.p_deliver(id, Options::MINE, "mined-after-recovery");
+				}
+			}
+			_ => {
+				m.n.raw(&format!("#ORACLE-FAIL C14 node-miner-did-not-recover hist={}: get_block still has not returned 20 s after the chain reached the lock height", m.n.name));
+			}
+		}
+	}
+	finish(m)
 }
 
 fn run_monitor_history(work: &str, hist: usize, seed: u64, rounds: usize) -> (String, BTreeMap<String, u64>) {
@@ -2501,7 +2733,8 @@ fn main() {
 	let args: Vec<String> = std::env::args().collect();
 	let clock = args.get(1).map(|s| s == "clock").unwrap_or(false);
 	let relay = args.get(1).map(|s| s == "relay").unwrap_or(false);
-	let monitor = clock || relay || args.get(1).map(|s| s == "monitor").unwrap_or(false);
+	let miner = args.get(1).map(|s| s == "miner").unwrap_or(false);
+	let monitor = clock || relay || miner || args.get(1).map(|s| s == "monitor").unwrap_or(false);
 	if monitor {
 		// `monitor_transactions` spawns its own thread: it reads the process-wide parameters, as
 		// in a running node (the worker threads of this harness set the same values thread-locally)
@@ -2510,8 +2743,13 @@ fn main() {
 		global::init_global_accept_fee_base(FEE_BASE);
 	}
 	let args: Vec<String> = if monitor { args[1..].to_vec() } else { args };
-	let nh: usize = args.get(1).and_then(|s| s.parse().ok()).unwrap_or(if relay { 2 } else if clock { if thorough { 6 } else { 2 } } else if monitor { if thorough { 12 } else { 3 } } else if thorough { 10 } else { 3 });
+	let nh: usize = args.get(1).and_then(|s| s.parse().ok()).unwrap_or(if miner { 1 } else if relay { 2 } else if clock { if thorough { 6 } else { 2 } } else if monitor { if thorough { 12 } else { 3 } } else if thorough { 10 } else { 3 });
 	let rounds: usize = args.get(2).and_then(|s| s.parse().ok()).unwrap_or(if monitor { if thorough { 20 } else { 6 } } else if thorough { 30 } else { 10 });
+	// `monitor <histories> <rounds> <first>`: histories first .. first+histories-1 (the thorough tier is
+	// registered as six runs of two histories: the process-wide secp lock serialises threads)
+	let first: usize = args.get(3).and_then(|s| s.parse().ok()).unwrap_or(0);
+	// `monitor <histories> <rounds> <first> <stride>`: histories first, first+stride, ..
+	let stride: usize = args.get(4).and_then(|s| s.parse().ok()).unwrap_or(1);
 	// the regular run ends with the scripted reorg-replay histories
 	const NREPLAY: usize = 3;
 	let nh = if monitor { nh } else { nh + NREPLAY };
@@ -2541,12 +2779,14 @@ fn main() {
 					let dir = format!("{}/n{}", work, h);
 					let _ = std::fs::create_dir_all(&dir);
 					let r = std::panic::catch_unwind(std::panic::AssertUnwindSafe(|| {
-						if relay {
+						if miner {
+							run_miner_history(&dir, h, seed)
+						} else if relay {
 							run_relay_history(&dir, h, seed)
 						} else if clock {
 							run_clock_history(&dir, h, seed)
 						} else if monitor {
-							run_monitor_history(&dir, h, seed, rounds)
+							run_monitor_history(&dir, first + h * stride, seed, rounds)
 						} else if h >= nh - NREPLAY {
 							run_replay_history(&dir, h - (nh - NREPLAY))
 						} else {
@@ -2573,7 +2813,7 @@ fn main() {
 	writeln!(
 		lock,
 		"#STAT poolnode{}: real Chain + servers::ChainToPoolAndNetAdapter + TransactionPool over PoolToChainAdapter{}, Peers without peers; {} histories of {} rounds{}; accept_fee_base {}",
-		if relay { " relay (real p2p::Peer objects over local sockets in the real Peers map: DandelionEpoch::relay_peer / send_stem_transaction)" } else if clock { " clock (tx_at of stem / reorg-cache entries set around the timers' boundaries, calls made within one wall-clock second: epoch_secs 4, aggregation_secs 20, embargo_secs 100, reorg_cache_period 30 / 1 / 0 min)" } else if monitor { " monitor" } else { "" },
+		if miner { " miner (mine_block::get_block on a mineable set the chain refuses)" } else if relay { " relay (real p2p::Peer objects over local sockets in the real Peers map: DandelionEpoch::relay_peer / send_stem_transaction)" } else if clock { " clock (tx_at of stem / reorg-cache entries set around the timers' boundaries, calls made within one wall-clock second: epoch_secs 4, aggregation_secs 20, embargo_secs 100, reorg_cache_period 30 / 1 / 0 min)" } else if monitor { " monitor" } else { "" },
 		if monitor { " and PoolToNetAdapter; NetToChainAdapter::transaction_received, dandelion_monitor phases and mine_block::get_block through grin_servers::verif_export" } else { "" },
 		nh,
 		rounds,
